@@ -155,8 +155,9 @@ def parse_obs(text):
             continue
         kind = parts[1]
         # flags passed to an operation are not part of the observation's name
-        if kind.endswith(":noagain"):
-            kind = kind[:-len(":noagain")]
+        for base in ("schema", "wfault", "rfault"):
+            if kind.startswith(base + ":"):
+                kind = base
         d[(parts[0], kind)] = parts[2] if len(parts) > 2 else ""
     return d
 
